@@ -141,6 +141,8 @@ def generate(ctx):
         if ctx.mine(i):
             yield 'history', {'history': h, 'origin': 'systematic:' + origin}
     n = ctx.scale(112, 1250)
+    if os.environ.get('PVMON_C10_RANDOM'):      # debugging aid: shorter runs
+        n = int(os.environ['PVMON_C10_RANDOM'])
     maxlen = 24 if ctx.thorough() else 16
     for _ in range(n):
         free = ctx.rng.random() < KNOWN_TRIGGER_SHARE
@@ -151,21 +153,32 @@ def generate(ctx):
 
 
 # ---------------------------------------------------------------------------
-def _merge(viols):
-    """One report per (kind, table role, group, state symptom): several symptoms of one mechanism in one
-    history (the same broken group seen by five public reads) become one record."""
+def _merge(viols, annot=None):
+    """Reports of one history.  Raw symptoms (one public read, one class of differing digest entries, one
+    class of shared objects) are the atoms; those of the same kind, table role and group that react in the
+    same way to the sibling histories (same `vanishes_without`, same projection result) become one report,
+    so that one mechanism seen by five public reads is one report and two mechanisms acting on one group
+    stay two."""
     X = _X()
+    annot = annot or {}
     out = {}
     for v in viols:
         sig = X.signature(v)
-        m = out.get(sig)
+        a = annot.get(sig, {})
+        key = (sig[0], sig[1], sig[2], tuple(a.get('vanishes_without', ())), a.get('projection_has'),
+               sig[3] if sig[0] in _STATE_KINDS else '')
+        m = out.get(key)
         if m is None:
-            m = out[sig] = {'kind': v['kind'], 'clause': v['clause'], 'table': v['table'], 'group': v['group'],
-                            'symptoms': [], 'msgs': [], 'events': [], 'entries': [], 'n_entries': 0,
+            m = out[key] = {'kind': v['kind'], 'clause': v['clause'], 'table': v['table'], 'group': v['group'],
+                            'symptoms': [], 'items': [], 'msgs': [], 'events': [], 'entries': [], 'n_entries': 0,
                             'fields': set(), 'got_kinds': set(), 'entry_names': set(),
-                            'all_entries_dataless': True, 'all_entries_lost_own_record': True,
-                            'heap': v.get('heap'), 'n_objects': v.get('n_objects'), 'signature': list(sig)}
+                            'heap': v.get('heap'), 'n_objects': v.get('n_objects'), 'signatures': [],
+                            'vanishes_without': list(a.get('vanishes_without', ())),
+                            'projection_clean': (not a['projection_has']) if a.get('projection_has') is not None else None}
         m['symptoms'].append(v['symptom'])
+        m['items'].append(sig[3])
+        if sig not in m['signatures']:
+            m['signatures'].append(sig)
         if len(m['msgs']) < 3:
             m['msgs'].append(v['msg'])
         m['events'].append([v['index'], v['event']])
@@ -174,18 +187,18 @@ def _merge(viols):
         m['fields'].update(v['fields'])
         m['got_kinds'].update(v['got_kinds'])
         m['entry_names'].update(v['entry_names'])
-        m['all_entries_dataless'] = m['all_entries_dataless'] and bool(v.get('all_entries_dataless'))
-        m['all_entries_lost_own_record'] = m['all_entries_lost_own_record'] and bool(v.get('all_entries_lost_own_record'))
         if v.get('traceback'):
             m['traceback'] = v['traceback']
     for m in out.values():
         m['symptoms'] = sorted(set(m['symptoms']))
+        m['items'] = sorted(set(m['items']))
         m['fields'] = sorted(m['fields'])
         m['got_kinds'] = sorted(m['got_kinds'])
         names = sorted(m['entry_names'])
         m['n_entry_names'] = len(names)
         m['entry_names'] = names[:60]
         m['entries'] = m['entries'][:8]
+        m['events'] = m['events'][:12]
     return out
 
 
@@ -233,15 +246,18 @@ def check_history(ctx, case):
     if any(tuple(e.split(':')[2:4]) in _state.get('guard_mut', ()) for e in h if e.startswith('mut:')) or \
             any(g in _state.get('guard_early', ()) for _, _, g in r['early_inits']):
         ctx.count('histories_with_bounded_feature.%s' % case.get('origin', 'replay').split(':')[0])
-    merged = _merge(r['violations'])
-    if not merged and not ctx.replay:
+    sigs = []
+    for v in r['violations']:
+        sg = X.signature(v)
+        if sg not in sigs:
+            sigs.append(sg)
+    if not sigs and not ctx.replay:
         return
 
-    value_sigs = [s for s in merged if s[0] not in _STATE_KINDS]
+    value_sigs = [s for s in sigs if s[0] not in _STATE_KINDS]
     early = sorted(set(g for _, _, g in r['early_inits']))
     muts = sorted(set(tuple(e.split(':')[2:4]) for e in h if e.startswith('mut:')))
-    vanish = dict((s, []) for s in merged)
-    projection_has = {}
+    annot = dict((s, {'vanishes_without': [], 'projection_has': None}) for s in sigs)
     if value_sigs:
         # siblings: the same history without one feature
         feats = [('early-init:%s' % g, X.warm_sibling(h, g)) for g in early] + \
@@ -252,22 +268,22 @@ def check_history(ctx, case):
             if st2 != 'ok':
                 continue
             sigs2 = set(X.signature(v) for v in r2['violations'])
-            for s in merged:
+            for s in sigs:
                 if s not in sigs2:
-                    vanish[s].append(name)
-        if any(s[0] in ('public-event', 'public-digest') for s in merged):
+                    annot[s]['vanishes_without'].append(name)
+        if any(s[0] in ('public-event', 'public-digest') for s in sigs):
             st3, r3 = _run(ctx, X.public_projection(h), heap=False)
             ctx.count('projection_histories')
             if st3 == 'ok':
                 sigs3 = set(X.signature(v) for v in r3['violations'])
-                for s in merged:
+                for s in sigs:
                     if s[0] in ('public-event', 'public-digest'):
-                        projection_has[s] = s in sigs3
+                        annot[s]['projection_has'] = s in sigs3
 
     # fresh-interpreter replay: always for value violations; for pure heap-sharing observations the first
     # two histories per signature in this shard
     need_fresh = bool(value_sigs) or ctx.replay
-    for s in merged:
+    for s in sigs:
         if s[0] in _STATE_KINDS and _state['confirmed'].get(s, 0) < 2:
             need_fresh = True
     fresh_sigs = None
@@ -279,16 +295,17 @@ def check_history(ctx, case):
         if stf != 'ok':
             ctx.harness_error('fresh-interpreter replay of %r failed: %s' % (h, str(rf)[-800:]))
         else:
-            fresh = _merge(rf['violations'])
-            fresh_sigs = set(fresh)
-            ctx.evaluated(len(set(merged) | fresh_sigs), 'fresh_vs_fork')
-            for s in fresh_sigs - set(merged):
+            fresh_sigs = set(X.signature(v) for v in rf['violations'])
+            ctx.evaluated(len(set(sigs) | fresh_sigs), 'fresh_vs_fork')
+            for s in sorted(fresh_sigs - set(sigs), key=repr):
                 ctx.harness_error('fresh interpreter shows %r for history %r, the forked run did not' % (s, h))
-            for s in fresh_sigs & set(merged):
+            for s in fresh_sigs & set(sigs):
                 _state['confirmed'][s] = _state['confirmed'].get(s, 0) + 1
 
-    for s, m in sorted(merged.items(), key=lambda kv: repr(kv[0])):
-        if projection_has.get(s):
+    keep = []
+    for v in r['violations']:
+        s = X.signature(v)
+        if annot[s]['projection_has']:
             # the public table shows the same difference without any private activity: a lazy-loading
             # (C09) matter, not an isolation one
             ctx.count('public_difference_also_in_public_only_projection')
@@ -297,12 +314,12 @@ def check_history(ctx, case):
         if fresh_sigs is not None and s not in fresh_sigs:
             ctx.harness_error('violation %r of history %r not reproduced in a fresh interpreter (fork artefact)' % (s, h))
             continue
+        keep.append(v)
+    for key, m in sorted(_merge(keep, annot).items(), key=lambda kv: repr(kv[0])):
         detail = dict(m)
         detail.update({
             'early_init_groups': early, 'mutations': ['%s:%s' % gv for gv in muts],
-            'vanishes_without': vanish.get(s, []),
-            'projection_clean': (not projection_has[s]) if s in projection_has else None,
-            'fresh_confirmed': (s in fresh_sigs) if fresh_sigs is not None else None,
+            'fresh_confirmed': (fresh_sigs is not None) or None,
             'origin': case.get('origin'),
         })
         ctx.violation('(%s) %s' % (m['clause'], m['msgs'][0]), **detail)
@@ -333,9 +350,9 @@ def finish(ctx):
 
 # ---------------------------------------------------------------------------
 def classify(rec):
-    """Mechanism key of a violation record, from the structure of the history (which init ran while the
+    """Mechanism key of a violation report, from the structure of the history (which init ran while the
     public group was pending, which mutations it contains, which sibling history is clean) and from the
-    differing entries - never from seeds or concrete values."""
+    class of the differing entries - never from seeds or concrete values."""
     d = rec.get('detail') or {}
     kind = d.get('kind')
     groups = set(str(d.get('group') or '').split('+'))
@@ -344,6 +361,8 @@ def classify(rec):
     got = set(d.get('got_kinds') or ())
     fields = set(d.get('fields') or ())
     names = set(d.get('entry_names') or ())
+    items = set(d.get('items') or ())
+    complete = d.get('n_entry_names', 0) == len(names)      # the list of entry names was not truncated
 
     if kind == 'shared-object':
         hp = d.get('heap') or {}
@@ -374,14 +393,14 @@ def classify(rec):
                 if got and got <= want:
                     return D6
         if groups == {'neutron'} and 'neutron' in early and 'early-init:neutron' in gone:
-            if kind == 'public-event' or d.get('all_entries_lost_own_record'):
+            if kind == 'public-event' or items == {'lost-own-record'}:
                 return D7
-        if groups == {'crystal'} and 'mut:crystal:inplace' in gone and 'crystal' not in early:
-            if (kind == 'public-digest' and names <= {'Fe', 'Cu'} and fields <= {'crystal_structure'}) or \
+        if groups == {'crystal'} and 'mut:crystal:inplace' in gone:
+            if (kind == 'public-digest' and complete and names <= {'Fe', 'Cu'} and fields <= {'crystal_structure'} and got <= {'value'}) or \
                     (kind == 'public-event' and all(n.startswith('pub.read:crystal:') for n in names)):
                 return D8
-        if groups == {'neutron'} and 'mut:neutron:missing' in gone and 'neutron' not in early:
-            if (kind == 'public-digest' and d.get('all_entries_dataless') and fields <= {'b_c'}) or \
+        if groups == {'neutron'} and 'mut:neutron:missing' in gone:
+            if (kind == 'public-digest' and items == {'atom-without-neutron-row'} and fields <= {'b_c'}) or \
                     (kind == 'public-event' and names <= {'pub.read:neutron:nodata'}):
                 return D26
         return None
@@ -392,18 +411,20 @@ def classify(rec):
                 fields <= {'K_alpha_units', 'K_beta1_units', 'value'} and got <= {'EXC:AttributeError'}:
             return D6
         if groups == {'crystal'} and 'mut:crystal:inplace' in gone and \
-                ((names <= {'Fe', 'Cu'} and fields <= {'crystal_structure'}) or
+                ((complete and names <= {'Fe', 'Cu'} and fields <= {'crystal_structure'}) or
                  all(n.startswith('read:crystal:') for n in names)):
             return D8
         if groups == {'neutron'} and 'mut:neutron:missing' in gone and \
-                ((d.get('all_entries_dataless') and fields <= {'b_c'}) or names <= {'read:neutron:nodata'}):
+                ((items == {'atom-without-neutron-row'} and fields <= {'b_c'}) or names <= {'read:neutron:nodata'}):
             return D26
         return None
 
     if kind == 'private-cross':
-        if groups == {'crystal'} and 'mut:crystal:inplace' in gone and names <= {'Fe', 'Cu'} and fields <= {'crystal_structure'}:
+        if groups == {'crystal'} and 'mut:crystal:inplace' in gone and complete and names <= {'Fe', 'Cu'} and \
+                fields <= {'crystal_structure'}:
             return D8
-        if groups == {'neutron'} and 'mut:neutron:missing' in gone and d.get('all_entries_dataless') and fields <= {'b_c'}:
+        if groups == {'neutron'} and 'mut:neutron:missing' in gone and items == {'atom-without-neutron-row'} and \
+                fields <= {'b_c'}:
             return D26
         return None
     return None
